@@ -3,7 +3,7 @@
    Commutative ring with Leibniz equality + "oofZ is the canonical map on naturals" (section hypotheses); axiom-free. *)
 From Coq Require Import String ZArith List Bool Ring Lia ZifyBool Arith.
 Import ListNotations.
-Require Import MV.Lib.Base MV.C08.Ops MV.C08.Gen MV.C08.Model MV.C08.Proofs_Struct MV.C08.Proofs_Dual.
+Require Import MV.Lib.Base MV.C08.Ops MV.C08.Gen MV.C08.Model MV.C08.Proofs_Struct MV.C08.Proofs_Dual MV.C08.Proofs_Tet.
 Open Scope Z_scope.
 
 Section Graph.
@@ -261,6 +261,14 @@ Theorem laplacian_tetrahedra_sym_rowsum (C : list cell) :
 Proof.
   unfold laplacian_tetrahedra. split; [apply tl_gen_rowsum|].
   intros H. destruct (cell_adjacency_ok_spec C H) as [H1 H2]. apply tl_gen_symm; assumption.
+Qed.
+
+(* ... in particular on every conforming tetrahedral mesh (conditions on the cell list alone) *)
+Theorem laplacian_tetrahedra_conforming (C : list cell) :
+  rs0 T O (laplacian_tetrahedra O C) /\ (cells_conforming C = true -> symm T O (laplacian_tetrahedra O C)).
+Proof.
+  destruct (laplacian_tetrahedra_sym_rowsum C) as [H1 H2]. split; [exact H1|].
+  intros Hc. apply H2. apply conforming_adjacency. exact Hc.
 Qed.
 
 (* ------------------------------------------------------------------ mass matrices: diagonal, totals *)
